@@ -136,6 +136,14 @@ pub fn c08(tier: &str) -> i32 {
     absorb_env(&mut out, &c, 1, 3, run_env::<1, 3>(&c), "env", true);
     let c = ecfg("Env<10>: tick 2", false, &[2], 50, s - 1, 2, 0, &cl);
     absorb_env(&mut out, &c, 1, 10, run_env::<1, 10>(&c), "env", true);
+    // who owns the orders (everywhere else each order has its own trader id)
+    crate::ops::set_traders(7, 1);
+    let c = ecfg("Env<3>: every order from one trader", false, &[1], 50, s - 1, 2, 0, &cl);
+    absorb_env(&mut out, &c, 1, 3, run_env::<1, 3>(&c), "env", true);
+    crate::ops::set_traders(7, 2);
+    let c = ecfg("MarketEnv<2,3>: two traders alternate", true, &[1, 2], 50, 3, 2, 0, &cl);
+    absorb_env(&mut out, &c, 2, 3, run_env::<2, 3>(&c), "market-env", true);
+    crate::ops::set_traders(100, 0);
     // pre-populated book (one earlier step)
     let mut c = ecfg("Env<3>: from a pre-populated two-sided book", false, &[1], 10, s - 1, 2, 0, &cl);
     c.base = vec![
